@@ -31,7 +31,7 @@ def plan(tier):
 
 def cases():
     return st.fixed_dictionaries({"p": C.cap_params(), "prefix": st.sampled_from(["", "ro.", "imm."]), "deep": st.booleans(),
-                                  "slot": st.sampled_from(["rw", "ro", "both"]),
+                                  "slot": st.sampled_from(["rw", "ro", "both"]), "warm": st.lists(st.sampled_from(["plain", "plain-ro", "rw+ro", "plain-deep"]), max_size=2),
                                   "future": st.sampled_from([None, "x-tahoe-future-test-writeable:abc", "x-tahoe-future-test-mutable:abc", "x-future:zzz"])})
 
 
@@ -158,6 +158,21 @@ def run_case(case, ctx):
     capstr = prefix + s
     rw_arg = capstr if slot in ("rw", "both") else None
     ro_arg = capstr if slot == "ro" else ((prefix + cap.get_readonly().to_string()) if slot == "both" and cap.get_readonly() is not None else None)
+    # the same NodeMaker may already hold live nodes for the unprefixed forms of this capability (its node cache must not let them answer for the alleged form)
+    alive = []
+    for wform in case.get("warm", []):
+        try:
+            if wform == "plain":
+                alive.append(nm.create_from_cap(s))
+            elif wform == "plain-ro" and cap.get_readonly() is not None:
+                alive.append(nm.create_from_cap(None, cap.get_readonly().to_string()))
+            elif wform == "rw+ro" and cap.get_readonly() is not None:
+                alive.append(nm.create_from_cap(s, cap.get_readonly().to_string()))
+            elif wform == "plain-deep":
+                alive.append(nm.create_from_cap(s, None, deep_immutable=True))
+            classes.append("cache-warmed")
+        except Exception:
+            pass
     try:
         node = nm.create_from_cap(rw_arg, ro_arg, deep_immutable=deep)
     except Exception as e:
